@@ -266,7 +266,7 @@ def run(chk):
             sp2.warm()
             hist.sequences(sp2, chk, sp2.name, 2 if quick else 3)
             sp3 = make_spec(cls, sa, kwargs, "closure", "quick")
-            sp3.qurls = sp3.qurls[::2]
+            sp3.qurls = sp3.qurls[::9] if quick else sp3.qurls[::2]
             sp3.warm()
             hist.interleavings(sp3, chk, "interleaved-" + sp3.name, 1 if quick else 2)
     chk.rule.append("Observe/mutate/observe: per configuration, after every history of length <= %d over the closure universe, every single query, "
